@@ -13,6 +13,8 @@ import NumbersModel.Drv.Refs
 import NumbersModel.Drv.DateFmt
 import NumbersModel.Drv.Duration
 import NumbersModel.Drv.NumFmt
+import NumbersModel.Drv.Grid
+import NumbersModel.Drv.Merge
 
 open NumbersModel.Drv
 
@@ -35,6 +37,8 @@ def dispatch (line : String) : String :=
     | "datefmt" :: rest => handleDateFmt rest
     | "dur" :: rest => handleDuration rest
     | "numfmt" :: rest => handleNumFmt rest
+    | "grid" :: rest => handleGrid rest
+    | "merge" :: rest => handleMerge rest
     | _ => none
   match r with
   | some s => s
